@@ -35,7 +35,8 @@
      copy_arr, ut_copy_attrs, ut_copy (ut_copy_old)
                                      ndarray.copy + __array_finalize__; UniformTime.copy (after 30eef3b)
      ts_copy, ts_apply, ts_binop, ts_iop   TimeSeries.copy, + - * via copy, += -= *=
-     csd (csd_old)                   periodogram_csd's handling of its argument up to the transform
+     csd (csd_old, csd_sk_inplace)   periodogram_csd's handling of its two array arguments (s and the
+                                     precomputed Sk) up to the transform
                                      (algorithms/spectral.py 311-325)
      boxcar (boxcar_old), filtered_boxcar   algorithms/filter.py 48-53,69,95,104-107;
                                      analysis/spectral.py 493 (np.copy before filtering)
@@ -530,12 +531,44 @@ Definition set_shape (a : loc) (sh : list nat) : M unit :=
   | _ => raise EAttr
   end.
 
-(* periodogram_csd (algorithms/spectral.py 311-325, after 1507847): s_loc = s.reshape(-1, n);
-   Sk_loc = fft(s_loc, n=N); everything after is computed from Sk_loc into fresh arrays *)
-Definition csd (s : loc) (N : option Z) : M loc :=
+(* periodogram_csd (algorithms/spectral.py 311-328, after 1507847), BOTH array arguments:
+     s_loc = s.reshape(-1, n)                                   a view of s
+     if Sk is not None:  Sk_loc = Sk.reshape(np.prod(Sk.shape[:-1]), N)
+                         a view of the caller's precomputed transform; for a 1-d Sk the product of
+                         the empty shape is a float and reshape raises TypeError; NFFT is ignored
+     else:               Sk_loc = fft(s_loc, n=N)               may raise (bad NFFT)
+   everything after is computed from Sk_loc into fresh arrays *)
+Definition csd (s : loc) (Sk : option loc) (N : option Z) : M loc :=
   c <- read s ;;
   match c with
-  | CArr _ sh _ => s_loc <- reshape_view s (flat2 sh) ;; fft_lib s_loc N
+  | CArr _ sh _ =>
+      s_loc <- reshape_view s (flat2 sh) ;;
+      match Sk with
+      | Some k =>
+          ck <- read k ;;
+          match ck with
+          | CArr _ [_] _ => raise EType
+          | CArr _ shk _ => k_loc <- reshape_view k (flat2 shk) ;; new_arr F64 [] [] KPlain
+          | _ => raise EAttr
+          end
+      | None => fft_lib s_loc N
+      end
+  | _ => raise EAttr
+  end.
+
+(* the seeded variant  Sk_loc = np.asarray(Sk); Sk_loc.shape = (-1, N)  : asarray of an ndarray is the
+   caller's own object, whose header is then overwritten *)
+Definition csd_sk_inplace (s : loc) (Sk : loc) : M loc :=
+  c <- read s ;;
+  match c with
+  | CArr _ sh _ =>
+      s_loc <- reshape_view s (flat2 sh) ;;
+      k <- asarray (PRef Sk) ;;
+      ck <- read k ;;
+      match ck with
+      | CArr _ shk _ => set_shape k (flat2 shk) ;;; new_arr F64 [] [] KPlain
+      | _ => raise EAttr
+      end
   | _ => raise EAttr
   end.
 
